@@ -24,6 +24,7 @@ from sim.props.ahbcommon import (
     project,
     second_validation,
     shrink_validation,
+    deepen,
     summarise_validation,
     widen,
 )
@@ -144,6 +145,8 @@ def generate(seed, tier="quick"):
                 ahb = {"lines": [rnd.choice(segments)]}
     if rnd.random() < 0.06 and entry == "deep":
         ahb = widen(rnd, ahb, pool)
+    elif rnd.random() < 0.04 and entry == "deep":
+        ahb = deepen(rnd, ahb, pool)
     profile = rnd.choice([p for p in PROFILES if p != "zero"] * 3 + ["zero"])
     request = {"rid": "r0", "cer": cer, "op": {"entry": entry, "ahb": ahb, "soll": rnd.random() < 0.5}}
     requests = [request]
